@@ -1,0 +1,29 @@
+//go:build verif
+
+// Contracts for the deductive verifier in /verif (comment-only; compiled only with -tags verif).
+package trie
+
+// C14: the hex-prefix ("compact") key encoding of trie nodes.  keybytesToHex writes two nibbles per byte and the terminator 16;
+// compactToHex needs at least the flag byte: on an empty string base[0] is out of range (decodeShort hands it the key string of a
+// stored short node, so a short node with an empty key string would panic there instead of returning a decode error) -- stated
+// as the precondition, see DESIGN.md 14.0a.
+//@ func keybytesToHex
+//@   props C14
+//@   requires len(str) <= 1<<40
+//@   modifies nothing
+//@   invariant @loop 0: 0 <= __k && __k <= len(str) && len(nibbles) == len(str)*2 + 1
+//@   ensures len(result) == len(str)*2 + 1 && result[len(result)-1] == 16
+//@   nopanic
+
+//@ func hasTerm
+//@   props C14
+//@   modifies nothing
+//@   ensures result <==> (len(s) > 0 && s[len(s)-1] == 16)
+//@   nopanic
+
+//@ func compactToHex
+//@   props C14
+//@   requires len(compact) >= 1 && len(compact) <= 1<<40
+//@   modifies nothing
+//@   ensures len(result) <= 2*len(compact)
+//@   nopanic
